@@ -425,6 +425,7 @@ func runC08(c *Ctx) {
 	runC08Buffers(c)
 	runC08OneOfPresence(c)
 	runC08Round4(c)
+	runC08IDUnmarshal(c)
 }
 
 func uniq(a, b string) []string {
